@@ -7,8 +7,9 @@ Open Scope N_scope.
 Inductive case :=
 (* encryptedExtensionsMsg.unmarshal(data): returned ok; when ok the fields it left *)
 | CEe (data : bytes) (ok : bool) (alpn : bytes) (cp : N) (settings : bytes) (early : bool) (quic ech : option bytes)
-(* utlsClientEncryptedExtensionsMsg.marshal with settings ++ pad zero bytes: None = error, Some head = head ++ pad zero bytes *)
-| CCeeM (cp : N) (settings : bytes) (pad : nat) (custom : bytes) (o : option bytes)
+(* utlsClientEncryptedExtensionsMsg.marshal with settings ++ pad zero bytes: None = error, Some (head, padded) = the output is
+   head (followed by the pad zero bytes when padded) *)
+| CCeeM (cp : N) (settings : bytes) (pad : N) (custom : bytes) (o : option (bytes * bool))
 (* utlsClientEncryptedExtensionsMsg.unmarshal of a client EncryptedExtensions captured by the server *)
 | CCeeU (data : bytes) (o : option (N * bytes))
 (* one TLS 1.3 handshake: the client's offered ALPN list and Config.ApplicationSettings, the server's EncryptedExtensions
@@ -21,7 +22,7 @@ Inductive case :=
 
 Definition opt_bytes_eqb (a b : option bytes) : bool :=
   match a, b with Some x, Some y => bytes_eqb x y | None, None => true | _, _ => false end.
-Definition zeros (n : nat) : bytes := repeat 0 n.
+Definition zeros (n : N) : bytes := repeat 0 (N.to_nat n).
 
 Definition check (c : case) : bool :=
   match c with
@@ -33,7 +34,7 @@ Definition check (c : case) : bool :=
       | _ => false end
   | CCeeM cp settings pad custom o =>
       match cee_marshal cp (settings ++ zeros pad) custom, o with
-      | Ok b, Some head => bytes_eqb b (head ++ zeros pad)
+      | Ok b, Some (head, padded) => bytes_eqb b (if padded then head ++ zeros pad else head)
       | Err _, None => true
       | _, _ => false end
   | CCeeU data o =>
